@@ -142,3 +142,25 @@ def lonlats(geo):
         warnings.simplefilter("ignore")
         lo, la = geo.get_lonlats()
     return np.asarray(lo, float), np.asarray(la, float)
+
+
+def describe(geo):
+    """JSON-able description from which `rebuild` reconstructs the geometry (for replay files)"""
+    from pyresample.geometry import AreaDefinition, GridDefinition
+    if isinstance(geo, AreaDefinition):
+        with warnings.catch_warnings():
+            warnings.simplefilter("ignore")
+            return {"kind": "area", "proj": geo.crs.to_wkt(), "width": geo.width, "height": geo.height, "extent": [float(v) for v in geo.area_extent]}
+    lo, la = lonlats(geo)
+    return {"kind": "grid" if isinstance(geo, GridDefinition) else "swath", "shape": list(lo.shape),
+            "lons": [None if not np.isfinite(v) else float(v) for v in lo.ravel()] if lo.size <= 400 else "omitted",
+            "lats": [None if not np.isfinite(v) else float(v) for v in la.ravel()] if lo.size <= 400 else "omitted"}
+
+
+def rebuild(desc):
+    from pyresample.geometry import GridDefinition, SwathDefinition
+    if desc["kind"] == "area":
+        return mk_area(desc["proj"], desc["width"], desc["height"], desc["extent"])
+    lo = np.array([np.nan if v is None else v for v in desc["lons"]], float).reshape(desc["shape"])
+    la = np.array([np.nan if v is None else v for v in desc["lats"]], float).reshape(desc["shape"])
+    return (GridDefinition if desc["kind"] == "grid" else SwathDefinition)(lo, la)
